@@ -2278,9 +2278,11 @@ const KW_TRIVIA_FULL: &[&str] = &[" ", "\n", "(* c *)", "/* c */", "\t", "\r\n",
 /// candidate the parser accepts gets every piece at the boundaries of the hole token and of its two
 /// neighbours (that is where the acceptance of the word was decided).  The first accepted candidate
 /// of every distinct way the parser structured the text (pre-order sequence of node kinds), the first
-/// accepted candidate of a quarter of the holes (rotating with the seed) and, in the thorough tier,
-/// ALL accepted candidates get every piece between EVERY pair of adjacent tokens.  The base text
-/// itself gets every piece at every token boundary.  The family stops at the sixth failure.
+/// accepted candidate of a quarter of the holes (rotating with the seed) get every piece between
+/// EVERY pair of adjacent significant tokens; in the thorough tier the first three accepted
+/// candidates of every hole and every new structure get all nine pieces at EVERY token boundary and
+/// the others at the boundaries of the two significant tokens on either side of the hole.  The base
+/// text itself gets every piece at every token boundary.  The family stops at the sixth failure.
 fn run_kwpos(ctx: &Ctx, lang: &Lang, sw: &Sweep, progress: &str, out: &mut Out) -> (Vec<String>, Vec<String>, Option<String>) {
     let mut fails: Vec<String> = Vec::new();
     let mut witness: Option<String> = None;
@@ -2363,9 +2365,11 @@ fn run_kwpos(ctx: &Ctx, lang: &Lang, sw: &Sweep, progress: &str, out: &mut Out) 
                     h.u16(n.kind() as u16);
                 }
                 let new_structure = structures.insert(h.0);
-                let which = if full {
+                let which = if full && (new_structure || accepted_here < 3) {
                     exhaustive += 1;
                     Bounds::All
+                } else if full {
+                    Bounds::Near { at: a, w: 2 }
                 } else if new_structure || (accepted_here == 0 && (seed + hi) % 4 == 0) {
                     exhaustive += 1;
                     Bounds::Significant
